@@ -18,4 +18,15 @@ def load(prop: str) -> list:
     if not PATH.exists():
         return []
     data = json.loads(PATH.read_text())
-    return [f for f in data.get("findings", []) if f.get("property") == prop]
+    out = []
+    for f in data.get("findings", []):
+        if f.get("property") == prop:
+            out.append(f)
+        elif prop in f.get("also_excluded_in", []):
+            # the same input class reaches this property's harnesses too: exclude it there as
+            # well, but report (and witness) the finding only under its own property
+            g = dict(f)
+            g.pop("witness", None)
+            g["foreign"] = True
+            out.append(g)
+    return out
